@@ -22,7 +22,8 @@ EVIDENCE = dict(
          "Also: a path naming a pipe (non-seekable stream), warnings turned into errors, sources that really carry out-of-range "
          "values, nested loads started through the public load_chunk entry points. "
          "non-trivial = the load raises or involves a nested load."
-         " The setting is also held as 1, 0, 2, 'strict' and '' (truth value restored).",
+         " The setting is also held as 1, 0, 2, 'strict' and '' (truth value restored)."
+         " After loads of files that carry out-of-range values the same values are assigned (attribute, keyword) to fresh objects: a strict session refuses them all (op strict_use).",
     explanation="fault_sequences: one fault per run at each enumerated position")
 
 
